@@ -38,8 +38,8 @@ TRUSTED_BASE = [
 ]
 
 
-class Timeout(Exception):
-    pass
+class Timeout(BaseException):
+    """Raised by the per-case alarm; not an Exception, so that `except Exception` in the code under test cannot eat it."""
 
 
 def _alarm(_sig, _frm):
